@@ -209,6 +209,24 @@ def malformed_variants(r):
     d.loc[r.randrange(n), col] = bad
     # the edited cell may create an all-zero row only if it is falsy; with the accepted values it is 1
     yield 'entry-%r' % (bad,), d, exp
+  # two illegal entries at once, of types that cannot be ordered against each other
+  for pair in [(None, 'x'), ('yes', 2), (float('nan'), 'no'), (2, None), ((1,), 'a'), (b'1', 5)]:
+    d = base.copy()
+    cells = [(i, c) for i in range(n) for c in ('control', 'treatment', 'exclude')]
+    (i1, c1), (i2, c2) = r.sample(cells, 2)
+    for c in {c1, c2}:
+      d[c] = d[c].astype(object)
+    d.at[i1, c1] = pair[0]
+    d.at[i2, c2] = pair[1]
+    yield 'entries-%r+%r' % pair, d, 'reject'
+  # geo is one level of a multi-level row index (e.g. the result of groupby(['region', 'geo']).max())
+  d = base.copy()
+  d['region'] = [r.choice(['north', 'south']) for _ in range(n)]
+  yield 'multiindex-region-geo', d.set_index(['region', 'geo']), 'accept'
+  yield 'multiindex-geo-region', d.set_index(['geo', 'region']), 'accept'
+  d = base.copy()
+  d.index = pd.Index(range(100, 100 + n), name='row_id')
+  yield 'named-foreign-index', d, 'accept'
   d = base.copy()
   d['notes'] = 'x'
   d['weight'] = 3.5
